@@ -12,5 +12,6 @@ CONSTANTS
   ScsSids = {0}
   ReaderScsAnySid = TRUE
   LazyFlushTypes = {}
+  NoSharedState = TRUE
 INVARIANTS NoDesync
 CHECK_DEADLOCK FALSE
